@@ -958,6 +958,7 @@ let dispatch line =
   | "W" :: args -> w_line args
   | "V" :: args -> v_line args
   | "X" :: args -> x_line args
+  | ["N"; "pfn"; h] -> "model=" ^ hex_of_str (public_field_name (str_of_hex h))
   | "Y" :: args -> y_line args
   | "I" :: args -> i_line args
   | "R" :: args -> r_line args
